@@ -14,7 +14,7 @@ open Qhttp
 def headerPairs' (lines : List Bytes) : Option (List (Bytes × Bytes)) :=
   lines.foldr (fun l acc =>
     match acc, breakOn [COLON] l with
-    | some hs, some (n, v) => some ((trim n, trim v) :: hs)
+    | some hs, some (n, v) => if (trim n).isEmpty then none else some ((trim n, trim v) :: hs)
     | _, _ => none) (some [])
 
 /-- `C13.specHead` (same text) -/
@@ -35,7 +35,7 @@ def mapOf (pairs : List (Bytes × Bytes)) (m : HeaderMap := []) : HeaderMap :=
 theorem headerPairs'_cons (l : Bytes) (ls : List Bytes) :
     headerPairs' (l :: ls) =
       match headerPairs' ls, breakOn [COLON] l with
-      | some hs, some (n, v) => some ((trim n, trim v) :: hs)
+      | some hs, some (n, v) => if (trim n).isEmpty then none else some ((trim n, trim v) :: hs)
       | _, _ => none := rfl
 
 /-- `Parser::parseHeaderList` = insert the pairs of `headerPairs` in line order -/
@@ -53,8 +53,8 @@ theorem parseHeaderList_eq_pairs (lines : List Bytes) :
       simp only
       rw [ih]
       cases headerPairs' ls with
-      | none => rfl
-      | some hs => rfl
+      | none => cases (trim n).isEmpty <;> simp
+      | some hs => cases he : (trim n).isEmpty <;> simp [he, mapOf]
 
 /-- **6c**: the library's parser succeeds exactly when the specification's reader does, with the
     same code and reason; its header map is the insertion of the specification's pairs in line
